@@ -30,6 +30,15 @@ fn c01_noise_target_limb_and_scale() {
 // ------------------------------------------------------------------------------------------------
 static mut TAPE: [u64; 8] = [0; 8];
 static mut DRAWS: usize = 0;
+static mut LAST_SEED: [u8; 32] = [0; 32];
+// Source::new runs CPU-feature detection (inline asm cpuid: unsupported by Kani); the generator state is irrelevant once the
+// stream is the symbolic tape, so construction is abstracted to "remember the seed".
+fn source_new_stub(seed: [u8; 32]) -> Source {
+    unsafe {
+        LAST_SEED = seed;
+        core::mem::zeroed()
+    }
+}
 fn tape_next_u64(_rng: &mut rand_chacha::ChaCha8Rng) -> Result<u64, core::convert::Infallible> {
     unsafe {
         let v: u64 = kani::any();
@@ -44,6 +53,7 @@ fn tape_next_u64(_rng: &mut rand_chacha::ChaCha8Rng) -> Result<u64, core::conver
 #[kani::proof]
 #[kani::unwind(4)]
 #[kani::stub(<rand_chacha::ChaCha8Rng as rand_core::TryRng>::try_next_u64, tape_next_u64)]
+#[kani::stub(crate::source::Source::new, source_new_stub)]
 fn c06_next_u64n_power_of_two() {
     let mut s = Source::new([0u8; 32]);
     let b: u32 = kani::any();
@@ -60,6 +70,7 @@ fn c06_next_u64n_power_of_two() {
 #[kani::proof]
 #[kani::unwind(6)]
 #[kani::stub(<rand_chacha::ChaCha8Rng as rand_core::TryRng>::try_next_u64, tape_next_u64)]
+#[kani::stub(crate::source::Source::new, source_new_stub)]
 fn c06_vec_znx_fill_uniform__n2_size2() {
     let mut s = Source::new([0u8; 32]);
     let mut v: VecZnx<Vec<u8>> = VecZnx::alloc(2, 1, 2);
